@@ -520,8 +520,9 @@ def main():
             exhaustive_subspace=('every sequence of 2 operations over the 39-operation small alphabet (3 keys x 3 value sizes, tight limit, all-colliding hasher) from the empty cache' if tier == 'quick' else 'every sequence of 3 operations over the 39-operation small alphabet and every sequence of 4 over the 14-operation reduced alphabet, identity and all-colliding hashers, from the empty cache') + ' (jobs exh*: used as model validation and counter-example search, never as the proof)'),
         assumptions=cfg.get('assumptions', []),
         wall_s=round(time.time() - t0, 2), violations=len(violations))
-    os.makedirs(os.path.join(ROOT, 'evidence'), exist_ok=True)
-    json.dump(ev, open(os.path.join(ROOT, 'evidence', pid + '.json'), 'w'), indent=1)
+    evdir = os.path.join(ROOT, 'evidence') if 'VERIF_REPO' not in os.environ else os.path.join(CACHE, 'evidence-scratch')   # scratch experiments never touch the evidence
+    os.makedirs(evdir, exist_ok=True)
+    json.dump(ev, open(os.path.join(evdir, pid + '.json'), 'w'), indent=1)
 
     for k, sig in known_hits:
         print('KNOWN-FINDING: property=%s %s (%s)' % (pid, k['what'], sig))
